@@ -85,6 +85,27 @@ var kindProgs = []kindProg{
 		"(list (@f0 1) (@f0 2))", nil},
 }
 
+// histProgs: histories with fmakunbound between definitions: the forms are evaluated in order
+// (form by form, or each compiled first), `defs` before them in every order; the last form's
+// value is given by the language: a caller always runs the CURRENT definition of its callee.
+type histProg struct {
+	name  string
+	defs  []string
+	steps []string
+	want  string
+}
+
+var histProgs = []histProg{
+	{"fmakunbound-then-defun", []string{"(defun @f1 (a) (list 1 a))", "(defun @f0 (a) (@f1 a))"},
+		[]string{"(@f0 1)", "(fmakunbound '@f1)", "(defun @f1 (a) (list 2 a))", "(list (@f0 1) (@f1 3))"}, "((2 1) (2 3))"},
+	{"fmakunbound-twice", []string{"(defun @f1 () 'one)", "(defun @f0 () (@f1))"},
+		[]string{"(@f0)", "(defun @f1 () 'two)", "(@f0)", "(fmakunbound '@f1)", "(defun @f1 () 'three)", "(@f0)", "(fmakunbound '@f1)", "(defun @f1 () 'four)", "(list (@f0) (funcall #'@f0) (@f1))"}, "(four four four)"},
+	{"fmakunbound-caller-uncalled", []string{"(defun @f1 (a) (* a 2))", "(defun @f0 (a) (+ 1 (@f1 a)))"},
+		[]string{"(fmakunbound '@f1)", "(defun @f1 (a) (* a 3))", "(@f0 5)"}, "16"},
+	{"fmakunbound-macro-then-defun", []string{"(defun @f0 (a) (list (@f1 a)))", "(defun @f1 (a) a)"},
+		[]string{"(@f0 1)", "(fmakunbound '@f1)", "(defun @f1 (a) (- a))", "(@f0 1)"}, "(-1)"},
+}
+
 var kindModes = []string{"repl", "crepl", "eval", "compile", "load"}
 
 func kindCases() []Case {
@@ -92,10 +113,56 @@ func kindCases() []Case {
 	for i := range kindProgs {
 		out = append(out, Case{Kind: "kinds", K: i})
 	}
+	for i := range histProgs {
+		out = append(out, Case{Kind: "kinds", K: 1000 + i})
+	}
 	return out
 }
 
+func execHist(x *fw.Ctx, hp histProg) {
+	x.Cover("kinds-history:" + hp.name)
+	for _, perm := range perms(len(hp.defs)) {
+		for _, compile := range []bool{false, true} {
+			w := newWorld(20000)
+			var forms []string
+			for _, i := range perm {
+				forms = append(forms, hp.defs[i])
+			}
+			forms = append(forms, hp.steps...)
+			var last obs
+			failed := ""
+			for _, f := range forms {
+				src := w.name(f)
+				last = w.do(func() slip.Object {
+					code := slip.ReadString(src, w.scope)
+					if compile {
+						code.Compile()
+					}
+					return code.Eval(w.scope, nil)
+				})
+				if last.err != nil {
+					failed = src + ": " + last.err.String()
+					break
+				}
+			}
+			x.Cover("kinds-history-evaluations")
+			got := last.val
+			if failed != "" {
+				got = "error at " + failed
+			}
+			if got != hp.want {
+				x.Fail(fmt.Sprintf("kinds history=%s fail=stale-or-wrong", hp.name), "definitions in the order %v (compiled=%v), then %s: the last form gives %s, the language gives %s", perm, compile, strings.Join(hp.steps, " "), got, hp.want)
+				return
+			}
+		}
+	}
+}
+
 func execKinds(x *fw.Ctx, c Case) {
+	if 1000 <= c.K {
+		execHist(x, histProgs[c.K-1000])
+		return
+	}
 	kp := kindProgs[c.K]
 	x.Cover("kinds:" + kp.name)
 	run := func(perm []int, mode string) (string, bool) {
